@@ -122,6 +122,13 @@ func harnessFiles(pkgDir, hdir, pkgName string) map[string][]byte {
 		b, _ := os.ReadFile(h)
 		out[filepath.Join(pkgDir, filepath.Base(h))] = b
 	}
+	// files for other packages of the same module: harness/<h>/_sub/<relative dir>/*.go
+	subs, _ := filepath.Glob(filepath.Join(hdir, "_sub", "*", "*.go"))
+	for _, h := range subs {
+		rel := filepath.Base(filepath.Dir(h))
+		b, _ := os.ReadFile(h)
+		out[filepath.Join(pkgDir, rel, filepath.Base(h))] = b
+	}
 	rt, err := os.ReadFile(filepath.Join(verifRoot(), "harness", "rt", "zz_verif_rt.go"))
 	if err != nil {
 		panic(err)
@@ -142,12 +149,14 @@ func cmdRun(args []string) int {
 	logic := fs.String("logic", "QF_BV", "")
 	tmo := fs.Int("timeout-ms", 20000, "per query")
 	cross := fs.Int("cross", 0, "replay up to N queries on the other solver")
+	crossBudget := fs.Int("cross-budget", 40, "seconds")
 	verbose := fs.Bool("v", false, "")
 	var flags multiFlag
 	fs.Var(&flags, "flag", "harness flag (verifFlag(name) is true)")
 	fs.Parse(args)
 	SolverName, SolverLogic, QueryTimeoutMs = *solver, *logic, *tmo
 	KeepChecks = *cross > 0
+	CrossBudgetS = *crossBudget
 	if v := os.Getenv("VERIF_SLOW"); v != "" {
 		fmt.Sscanf(v, "%f", &SlowLog)
 	}
@@ -254,6 +263,14 @@ func runEntry(res *RunResult, dir, hdir, entry, smtlog string, unroll, cross int
 	prog, spkgs := ssautil.AllPackages(pkgs, ssa.InstantiateGenerics)
 	prog.Build()
 	res.LoadS = time.Since(t0).Seconds()
+	if entry == "P7_flags" {
+		runP7(res, prog, spkgs[0])
+		res.ExecS = time.Since(t0).Seconds() - res.LoadS
+		if res.Status != "ok" {
+			return 2
+		}
+		return 0
+	}
 	fn := spkgs[0].Func(entry)
 	if fn == nil {
 		res.Status = "UNSUPPORTED: no entry " + entry
@@ -292,13 +309,11 @@ func runEntry(res *RunResult, dir, hdir, entry, smtlog string, unroll, cross int
 			}
 		}()
 		st0 := newState()
-		// initialisers of in-repo packages other than the one under test are executed (their
-		// package-level variables, e.g. multiendpoint.timeNow, must hold their real values)
+		// package-level variables of the package under test that init() sets to a function literal,
+		// a function or a constant take that value (the rest of init is not executed)
 		for _, p := range prog.AllPackages() {
-			if p != spkgs[0] && strings.Contains(p.Pkg.Path(), "GoogleCloudPlatform/grpc-gcp-go") && !strings.HasSuffix(p.Pkg.Path(), "/grpc_gcp") {
-				if ini := p.Func("init"); ini != nil {
-					_, st0, _ = in.callFn(FuncV{fn: ini}, nil, True, st0, 0)
-				}
+			if p == spkgs[0] || strings.Contains(p.Pkg.Path(), "GoogleCloudPlatform/grpc-gcp-go") {
+				st0 = in.staticInit(p, st0)
 			}
 		}
 		if in.flags["runInit"] {
@@ -326,7 +341,18 @@ func runEntry(res *RunResult, dir, hdir, entry, smtlog string, unroll, cross int
 			in.solver.Assert(Eq(gv, o.G))
 			obsVars = append(obsVars, v, gv)
 		}
-		if in.sat(g) {
+		// the witness must be a path on which every float->int conversion is in range (outside it Go's
+		// result is implementation-defined and the native replay could differ from the solver's choice)
+		wg := g
+		for _, x := range in.floatToInt {
+			lo := FPFromBits(BV(64, 0xC3E0000000000000)) // -2^63
+			hi := FPFromBits(BV(64, 0x43E0000000000000)) // 2^63
+			wg = And(wg, FPCmp("geq", x, lo), FPCmp("lt", x, hi))
+		}
+		if len(in.floatToInt) > 0 && !in.sat(wg) {
+			wg = g
+		}
+		if in.sat(wg) {
 			res.Witness = in.solver.Model(in.vars)
 			res.Observes = map[string]string{}
 			om := in.solver.Model(obsVars)
@@ -395,4 +421,44 @@ func packageName(dir string) (string, error) {
 		}
 	}
 	return "", fmt.Errorf("no Go package in %s", dir)
+}
+
+func (in *Interp) staticInit(pkg *ssa.Package, st *MState) *MState {
+	ini := pkg.Func("init")
+	if ini == nil {
+		return st
+	}
+	act := &Act{in: in, fn: ini, env: Env{}, st: st, g: True}
+	for _, b := range ini.Blocks {
+		for _, instr := range b.Instrs {
+			sto, ok := instr.(*ssa.Store)
+			if !ok {
+				continue
+			}
+			g, ok := sto.Addr.(*ssa.Global)
+			if !ok {
+				continue
+			}
+			var v Value
+			switch x := sto.Val.(type) {
+			case *ssa.Function:
+				v = FuncV{fn: x}
+			case *ssa.MakeClosure:
+				if len(x.Bindings) == 0 {
+					v = FuncV{fn: x.Fn.(*ssa.Function)}
+				}
+			case *ssa.Const:
+				func() {
+					defer func() { recover() }()
+					v = in.constVal(x)
+				}()
+			}
+			if v == nil {
+				continue
+			}
+			p := act.global(g)
+			act.st.heap[p.alts[0].obj] = VS{v, -p.alts[0].obj}
+		}
+	}
+	return act.st
 }
